@@ -231,7 +231,24 @@ pub fn run(ctx: &Ctx) {
             let mut log = Vec::new();
             let seed_state = (w, n);
             let with_panics = n % 3 == 2;
-            match history(&mut rng, initial, max, with_panics, &mut log) {
+            // the history runs in its own thread under a watchdog: a submission that never
+            // returns (an acceptor blocked inside the pool) must end the history, not the check
+            let (tx, rx) = std::sync::mpsc::channel();
+            let mut hr = Rng::lane(rng.next(), 1);
+            let hlog = Arc::new(std::sync::Mutex::new(Vec::<String>::new()));
+            let hlog2 = hlog.clone();
+            let _ = std::thread::Builder::new().name("c14-history".into()).spawn(move || {
+                let mut l = Vec::new();
+                let r = history(&mut hr, initial, max, with_panics, &mut l);
+                *hlog2.lock().unwrap() = l;
+                let _ = tx.send(r);
+            });
+            let outcome = match rx.recv_timeout(Duration::from_secs(90)) {
+                Ok(r) => r,
+                Err(_) => Err("the history did not finish within 90 s: a submission (ThreadPool::execute, i.e. the acceptor) or the pool's drop is blocked".to_string()),
+            };
+            log = hlog.lock().unwrap().clone();
+            match outcome {
                 Ok((races, qp, panics)) => {
                     ctx.count("stress_handler_panics_injected", panics as u64);
                     ctx.case(if races > 0 { Some(hash_of(&("stress", initial, max, &log))) } else { None });
